@@ -1,6 +1,7 @@
 import PydraModel.WfState.LemmasRoute
 import PydraModel.WfState.LemmasHist
 import PydraModel.WfState.Class
+import PydraModel.WfState.Whole
 /-
 C03 — Workflow state propagation matches a nested-loop reference evaluation.   (LAYERED / PARTIAL, DESIGN §6 C03)
 
@@ -25,9 +26,19 @@ What is PROVED here (all unbounded: any number of upstream states, any axis size
   * witnesses (kernel evaluation of both interpreters): diamond (D2), descendant (D31), second-pass TypeError (D30),
     partial zip combiner (D29), all-previous-axes combiner (D37), later upstream through two fields (D38), node name
     contained in a foreign combiner key (D39).
-What is NOT proved: `C03_full_statement` (false: `C03_full_statement_false`), and the workflow-level statement
-"`Model.run w = Spec.run w` for every workflow in `InClass`" — that composition (the bookkeeping passes hand exactly
-these inputs to the node step) is compared by the correspondence check on every generated workflow and reported as testing.
+  * `C03_workflow_Simple_partial`   THE WORKFLOW-LEVEL STATEMENT ON THE CLASS `Simple` (WfState/Simple.lean; proof in
+                          WfState/Whole*.lean): any number of nodes, any wiring (chains, fan-ins, fan-outs into separate
+                          branches), own splitters absent / over one field / OUTER over two fields, any list lengths ≥ 1,
+                          NO combiner, no scalar splitter, and `NoSharedOrigin` in the form "the connected upstream states
+                          and the own splitter have pairwise disjoint, duplicate-free axes; each upstream state feeds one
+                          field; no connected upstream state is fed by another connected one".  For every such workflow the
+                          whole model — both construction passes (`_connect_splitters`, `_add_state_history`,
+                          `_complete_prev_state`, the second pass of `_create_graph`), `set_input_groups`,
+                          `prepare_states_ind/inputs`, `_split_task`, `LazyOutField._get_value` — and the nested-loop
+                          reference succeed with the same outputs, the same job counts and the same job outputs per node.
+What is NOT proved: `C03_full_statement` (false: `C03_full_statement_false`), and the workflow-level statement for the rest
+of `InClass` (combiners, scalar splitters, shared origins that the mechanism happens to handle) — there the composition
+is compared by the correspondence check on every generated workflow and reported as testing.
 -/
 namespace PydraModel.WfState
 open Model
@@ -254,6 +265,70 @@ theorem C03_no_shared_origin_not_enough :
   have ha := (h laterMulti hw C03_witness_later_multi.2.2).summary
   rw [C03_witness_later_multi.1, C03_witness_later_multi.2.1] at ha
   exact absurd ha (by decide)
+
+/-! ### workflows used by C30's repeated-run witnesses (Props/C30.lean) -/
+
+/-- D29 on a second run: `N0` zipped over (x, y) and combined over x only, `N1` split, `N2` fed by both. -/
+def rerunPartialZip : Wf :=
+  { nodes := [nd 0 l2 (.lst [.int 10, .int 20]) .none (.inner .x .y) [(0, .x)],
+              nd 1 l3 .none .none (.single .x),
+              nd 2 (.up 0) (.up 1) .none], outs := [2] }
+
+/-- D39 on a second run: node 1's NAME is contained in the key of node 0's second axis, which node 1 combines. -/
+def rerunNameClash : Wf :=
+  { nodes := [nd 0 l2 .none (.lst [.int 7]) (.outer .x .z) [(0, .x)],
+              { nd 1 (.up 0) .none .none .no [(0, .z)] with ownCombOverride := some [(0, .z)] },
+              nd 2 (.up 1) .none .none], outs := [2] }
+
+/-- A decidable summary of any outcome of the model. -/
+def summaryOf (r : M Result) : Summary :=
+  match r with
+  | .ok r => .ok r.jobs (r.outs.map Val.jobShapes)
+  | .error (.crash c) => .crash c
+  | .error _ => .other
+
+/-- Summaries of two consecutive runs over the same node/state objects (`none`: the first run failed). -/
+def rerunSummary (w : Wf) : Option (Summary × Summary) :=
+  match Model.runTwice w with
+  | .ok (r1, r2) => some (summaryOf (.ok r1), summaryOf r2)
+  | .error _ => none
+
+/-! ### the workflow-level statement on the class `Simple` -/
+
+/-- `Agrees` plus equality of every node's list of job outputs. -/
+def AgreesJobwise (w : Wf) : Prop :=
+  ∃ m s, Model.run w = .ok m ∧ Spec.run w = .ok s ∧ m.outs = s.outs ∧ m.jobs = s.jobs ∧ m.jobOuts = s.jobOuts
+
+theorem AgreesJobwise.agrees {w : Wf} (h : AgreesJobwise w) : Agrees w := by
+  obtain ⟨m, s, hm, hs, ho, hj, _⟩ := h
+  exact ⟨m, s, hm, hs, ho, hj⟩
+
+/-- **C03 on the class `Simple` (PARTIAL: the class excludes combiners, scalar splitters and shared origins).**
+    For every workflow accepted by the decidable predicate `Simple.simple`, the model of pydra's state mechanism and the
+    nested-loop reference both succeed, with equal workflow outputs, equal job counts and equal job outputs per node. -/
+theorem C03_workflow_Simple_partial (w : Wf) (h : Simple.simple w = true) : AgreesJobwise w :=
+  Simple.simple_agrees w h
+
+/-- Non-vacuity: a five-node workflow in the class — two split roots (one with an outer splitter), a chain node with an own
+    splitter on top of its upstream state, a fan-in of the two branches with one more own axis, a stateless constant node —
+    on which the reference runs (3·2)·2·3·2 = 72 jobs at the fan-in. -/
+def simpleExample : Wf :=
+  { nodes := [nd 0 l3 l2 .none (.outer .x .y),
+              nd 1 (.up 0) l2 .none (.single .y),
+              nd 2 l3 .none .none (.single .x),
+              nd 3 (.up 1) (.up 2) l2 (.single .z),
+              nd 4 (.const (.int 5)) .none .none],
+    outs := [3, 4] }
+
+theorem simpleExample_in_class : Simple.simple simpleExample = true := by decide +kernel
+
+theorem simpleExample_jobs :
+    (match Spec.run simpleExample with | .ok r => r.jobs | .error _ => []) = [(0, 6), (1, 12), (2, 3), (3, 72), (4, 1)] := by
+  decide +kernel
+
+/-- The class is inside the harness' empirical class: a `Simple` workflow has none of the flags that put a workflow
+    outside `InClass` — checked by the driver on every generated workflow (`cls.simple → cls.inClass`), not proved. -/
+example : Class.inClass simpleExample = true := by decide +kernel
 
 /-! ### non-vacuity of the routing theorems -/
 
